@@ -1,16 +1,92 @@
 #!/usr/bin/env python3
-"""tools/seed_matrix.py [Cxx ...] — applies each /verif/seeded/<id>/<n>/patch.diff to /repo (git apply), runs the check of the
-seed's own property plus the related checks listed in RELATED, reverts (git checkout -- .), and records which checks alarm in
-/verif/seeded/MATRIX.json.  /repo is left pristine.  Never run concurrently with other checks (it changes /repo's working tree)."""
+"""tools/seed_matrix.py [--scratch N] [Cxx ...] — applies each /verif/seeded/<id>/<n>/patch.diff, runs the check of the seed's
+own property plus the related checks listed in RELATED, reverts, and records which checks alarm in /verif/seeded/MATRIX.json.
+Default: the patch is applied to /repo itself (git apply ... git checkout -- .; never run concurrently with other checks).
+--scratch N: N parallel workers, each on its own scratch copy of /repo under a mktemp directory (VERIF_REPO / VERIF_CACHE point
+there; removed afterwards), so /repo is not touched at all."""
 import json, os, re, subprocess, sys
 VERIF = os.path.dirname(os.path.dirname(os.path.abspath(__file__)))
 REPO = os.environ.get("VERIF_REPO", "/repo")
 RELATED = {"C01": ["C09"], "C10": ["C07"], "C09": ["C01"], "C20": [], "C03": [], "C02": ["C11"], "C11": ["C02"], "C04": ["C18"], "C16": [], "C14": ["C01"]}
 claimed = {c["property_id"] for c in json.load(open(os.path.join(VERIF, "MANIFEST.json")))["checks"]}
-want = sys.argv[1:]
+args = sys.argv[1:]
+NSCRATCH = 0
+if "--scratch" in args:
+    i = args.index("--scratch")
+    NSCRATCH = int(args[i + 1])
+    del args[i:i + 2]
+WORKER = None
+if "--worker" in args:          # internal: --worker <repo copy> <cache dir> <seed ids...>
+    i = args.index("--worker")
+    WORKER = (args[i + 1], args[i + 2])
+    want_ids = args[i + 3:]
+    args = []
+want = args
 mpath = os.path.join(VERIF, "seeded", "MATRIX.json")
 matrix = json.load(open(mpath)) if os.path.exists(mpath) else {}
 env = dict(os.environ, VERIF_EVIDENCE_DIR="/tmp/seed-matrix-evidence")
+all_ids = []
+for prop in sorted(os.listdir(os.path.join(VERIF, "seeded"))):
+    d = os.path.join(VERIF, "seeded", prop)
+    if os.path.isdir(d) and (not want or prop in want):
+        all_ids += ["%s/%s" % (prop, n) for n in sorted(os.listdir(d)) if os.path.exists(os.path.join(d, n, "patch.diff"))]
+
+
+def run_one(sid, repo, env, use_git):
+    prop, n = sid.split("/")
+    patch = os.path.join(VERIF, "seeded", prop, n, "patch.diff")
+    checks = [p for p in [prop] + RELATED.get(prop, []) if p in claimed]
+    res = {}
+    try:
+        if use_git:
+            subprocess.run(["git", "-C", repo, "apply", patch], check=True)
+        else:
+            subprocess.run(["patch", "-p1", "-s", "--no-backup-if-mismatch", "-i", patch], cwd=repo, check=True)
+        for p in checks:
+            r = subprocess.run([os.path.join(VERIF, "check"), p], stdout=subprocess.PIPE, stderr=subprocess.STDOUT, text=True, env=env)
+            keys = sorted(set(re.findall(r"^  key: (.*?)   \(found", r.stdout, re.M)))
+            res[p] = {"exit": r.returncode, "alarms": [k[:160] for k in keys][:6]}
+    finally:
+        if use_git:
+            subprocess.run(["git", "-C", repo, "checkout", "--", "."], check=True)
+        else:
+            subprocess.run(["patch", "-p1", "-R", "-s", "--no-backup-if-mismatch", "-i", patch], cwd=repo, check=True)
+    return {"own_property_claimed": prop in claimed, "checks": res, "caught_by": sorted(p for p, v in res.items() if v["exit"] == 1)}
+
+
+if WORKER is not None:
+    repo, cache = WORKER
+    env = dict(os.environ, VERIF_EVIDENCE_DIR=os.path.join(cache, "evidence"), VERIF_REPO=repo, VERIF_CACHE=cache)
+    out = {}
+    for sid in want_ids:
+        out[sid] = run_one(sid, repo, env, False)
+        print("%s caught_by=%s" % (sid, out[sid]["caught_by"]), flush=True)
+        json.dump(out, open(os.path.join(cache, "result.json"), "w"))
+    sys.exit(0)
+if NSCRATCH:
+    import tempfile, shutil
+    base = tempfile.mkdtemp(prefix="verif-seedmatrix-")
+    procs = []
+    try:
+        for w in range(NSCRATCH):
+            ids = all_ids[w::NSCRATCH]
+            if not ids:
+                continue
+            repo = os.path.join(base, "repo%d" % w)
+            cache = os.path.join(base, "cache%d" % w)
+            os.makedirs(cache)
+            subprocess.run(["rsync", "-a", "--exclude", "target", "--exclude", ".git", REPO + "/", repo + "/"], check=True)
+            procs.append((cache, subprocess.Popen([sys.executable, os.path.abspath(__file__), "--worker", repo, cache] + ids)))
+        for cache, pr in procs:
+            pr.wait()
+            rp = os.path.join(cache, "result.json")
+            if os.path.exists(rp):
+                matrix.update(json.load(open(rp)))
+        json.dump(matrix, open(mpath, "w"), indent=1, sort_keys=True)
+    finally:
+        shutil.rmtree(base, ignore_errors=True)
+    print("done: %d seeds recorded" % len(matrix))
+    sys.exit(0)
 assert subprocess.run(["git", "-C", REPO, "status", "--porcelain", "--untracked-files=no"], stdout=subprocess.PIPE, text=True).stdout.strip() == "", "/repo is not pristine"
 for prop in sorted(os.listdir(os.path.join(VERIF, "seeded"))):
     d = os.path.join(VERIF, "seeded", prop)
